@@ -853,7 +853,7 @@ class RemoteStack(Stack):
             emsg = "Cannot remove remote '{0}', does not exist.".format(remote.uid)
             raise ValueError(emsg)
         if remote is not self.uidRemotes[remote.uid]:
-            emsg = "Cannot remove remote '{0}', not identical.".format(uid)
+            emsg = "Cannot remove remote '{0}', not identical.".format(remote.uid)
             raise ValueError(emsg)
 
         del self.uidRemotes[remote.uid]
